@@ -500,6 +500,9 @@ pub fn run(env: &Env) -> i32 {
     }
     // minimise the source by lines while the same signature persists under the same key
     for v in violations.iter_mut() {
+        if std::env::var("VERIF_NOMIN").is_ok() {
+            break;
+        }
         let src = v.replay["source"].as_str().unwrap_or("").to_string();
         let key_hex = v.replay["hashkey"].as_str().unwrap_or("").to_string();
         let mut key = [0u8; 16];
